@@ -333,6 +333,10 @@ def build(X):
 
 # ----------------------------------------------------------------------------- replay on the real compiler: programs that must be REJECTED (an error, not SQL, not a panic)
 REJECT = [
+    # a named argument that the callee does not have is an error - also on the exclusion form of std.not (round-7 seed C10-14)
+    "from employees\nselect {id, name, salary}\nselect (std.not {salary} keep_nulls:true)\n",
+    # a top-level function called from a module function does not see the module's declarations (round-7 seed C10-13)
+    "let bump = v -> v + step\nmodule pricing {\n  let step = 10\n  let adjust = v -> bump v\n}\nfrom items\nselect {price, qty}\nselect {new_price = pricing.adjust price}\n",
     'from (text.length "abc")\nselect {n = 1}\n',
     "from employees\nappend (math.floor 2.5)\n",
     "from employees\nderive {z = 1} 5\n",
